@@ -2,7 +2,7 @@
    Statements only; proofs in Proofs/TxPipeProofs.v; model in Model/TxPipe.v (deliver-mode pipeline with the
    interpreter's result as oracle [evm_out]; [e_burn] = amount explicitly destroyed by a successful execution,
    [e_moves] = balance movements of a successful execution). *)
-From Evm Require Import TxPipe TxPipeProofs.
+From Evm Require Import TxPipe TxPipeProofs TxPipeDenom TxPipeDenomProofs.
 Open Scope Z_scope.
 
 (* one transaction, any outcome: the supply changes by exactly minus what a committed successful execution destroyed *)
@@ -105,3 +105,132 @@ Example C04_example_burn :
   bal s2 7 = 10^18 - 150000 * 2000 - 12 /\
   sum_moves (e_moves o1) = - e_burn o1 /\ sum_moves (e_moves o2) = - e_burn o2.
 Proof. vm_compute. repeat split; reflexivity. Qed.
+
+(* ================================================================== every denomination (Model/TxPipeDenom.v)
+   [supply_d s d] / [bal_d s d a]: the bank's books per denomination; d = EVM_DENOM is TxPipe's ledger, every other d
+   the ledger the EVM module reaches only through CreateAccount (burn and mint again) and DestroyAccount (burn all).
+   [ddeliver] = TxPipe.deliver + that; [devm] = accounts created / deleted by a successful execution (oracle). *)
+
+(* CreateAccount carries every denomination over: no balance and no supply of any denomination changes *)
+Theorem C04_create_account_carries_every_denomination : forall L a d x,
+  l_bal (create_account L a) d x = l_bal L d x /\ l_supply (create_account L a) d = l_supply L d.
+Proof. intros L a d x. destruct (create_account_id L a) as [A B]. split; [apply A|apply B]. Qed.
+Print Assumptions C04_create_account_carries_every_denomination.
+
+(* one transaction, any outcome, EVERY denomination d: the supply changes by exactly minus what was explicitly destroyed:
+   [destroyed_d] = e_burn for the EVM denomination, for any other one the d-balances of the accounts deleted at the end
+   of a committed successful execution ([destroyed_sum]: each listed account once), 0 in every other outcome *)
+Theorem C04_denom_supply_step : forall s t o x d,
+  supply_d (fst (ddeliver s t o x)) d = supply_d s d - destroyed_d s t o x d.
+Proof. exact denom_supply_step. Qed.
+Print Assumptions C04_denom_supply_step.
+
+(* for a duplicate-free list of deleted accounts that amount is the plain sum of their balances *)
+Theorem C04_destroyed_amount_is_sum_of_balances : forall L l d,
+  NoDup l -> destroyed_sum L l d = total l (l_bal L d).
+Proof. intros L l d H. apply destroyed_sum_nodup. exact H. Qed.
+Print Assumptions C04_destroyed_amount_is_sum_of_balances.
+
+(* every surviving account keeps its balance in every other denomination, in every outcome: created contracts, the
+   sender, recipients, the fee collector; a deleted account ends with nothing *)
+Theorem C04_other_denominations_kept : forall s t o x d a, d <> EVM_DENOM ->
+  bal_d (fst (ddeliver s t o x)) d a =
+  match r_out (snd (ddeliver s t o x)) with
+  | Executed false => if mem a (x_destroyed x) then 0 else bal_d s d a
+  | _ => bal_d s d a
+  end.
+Proof. exact other_denoms_kept. Qed.
+Print Assumptions C04_other_denominations_kept.
+
+(* fee handling (ante deduction, refund, fee-collector burn) never reaches another denomination *)
+Theorem C04_other_denominations_untouched_by_fees : forall s t o x d a, d <> EVM_DENOM ->
+  r_out (snd (ddeliver s t o x)) <> Executed false \/ ~ In a (x_destroyed x) ->
+  bal_d (fst (ddeliver s t o x)) d a = bal_d s d a.
+Proof. exact other_denoms_untouched_by_fees. Qed.
+Print Assumptions C04_other_denominations_untouched_by_fees.
+
+Theorem C04_other_supplies_move_only_on_success : forall s t o x d, d <> EVM_DENOM ->
+  r_out (snd (ddeliver s t o x)) <> Executed false ->
+  supply_d (fst (ddeliver s t o x)) d = supply_d s d.
+Proof. exact other_denoms_supply_unless_success. Qed.
+Print Assumptions C04_other_supplies_move_only_on_success.
+
+(* per denomination, the balance changes over any duplicate-free universe containing the accounts involved sum to the
+   change of that denomination's supply (= minus the explicit destructions, by C04_denom_supply_step) *)
+Theorem C04_denom_balances_sum_to_minus_destroyed : forall s t o x l d,
+  (e_vmerr o = false -> sum_moves (e_moves o) = - e_burn o) ->
+  NoDup l -> In (t_from t) l -> In FEE_COLLECTOR l -> (forall p, In p (e_moves o) -> In (fst p) l) ->
+  incl (x_destroyed x) l ->
+  total l (bal_d (fst (ddeliver s t o x)) d) - total l (bal_d s d) =
+  supply_d (fst (ddeliver s t o x)) d - supply_d s d.
+Proof. exact denom_balances_follow_supply. Qed.
+Print Assumptions C04_denom_balances_sum_to_minus_destroyed.
+
+(* ANY history (Ethereum transactions in every outcome class interleaved with Cosmos transactions carrying bank sends of
+   other denominations), every denomination: final supply = initial supply - explicit destructions; it never grows *)
+Theorem C04_denom_supply_history : forall l s d,
+  supply_d (dfinal s l) d = supply_d s d - destroyed_hist s l d.
+Proof. exact denom_supply_history. Qed.
+Print Assumptions C04_denom_supply_history.
+
+Theorem C04_denom_supply_never_grows : forall l s d,
+  nonneg (d_other s) -> burns_nonneg l -> supply_d (dfinal s l) d <= supply_d s d.
+Proof. exact denom_supply_never_grows. Qed.
+Print Assumptions C04_denom_supply_never_grows.
+
+(* a Cosmos transaction's bank sends conserve every other denomination: supply unchanged, balances of a universe
+   containing the parties keep their total *)
+Theorem C04_cosmos_sends_conserve : forall s g p f inc ok sends l d, d <> EVM_DENOM -> NoDup l ->
+  (forall m, In m sends -> In (s_from m) l /\ In (s_to m) l) ->
+  total l (bal_d (fst (dstep s (DCosmos g p f inc ok sends))) d) = total l (bal_d s d) /\
+  supply_d (fst (dstep s (DCosmos g p f inc ok sends))) d = supply_d s d.
+Proof. exact cosmos_conserves. Qed.
+Print Assumptions C04_cosmos_sends_conserve.
+
+(* the EVM-denomination projection of a multi-denomination history is the TxPipe history: every theorem above and in
+   C05 C06 C13 about TxPipe.final / run applies to it *)
+Theorem C04_denom_history_projects : forall l s,
+  d_core (dfinal s l) = final (d_core s) (map core_item l) /\
+  snd (drun s l) = snd (run (d_core s) (map core_item l)).
+Proof. intros l s. split; [apply dfinal_core|apply drun_results]. Qed.
+Print Assumptions C04_denom_history_projects.
+
+(* non-vacuity: account 9 holds 40 EVM coins, 1000 of denomination 1 and 50 of denomination 2; account 8 holds 7 of
+   denomination 1.  Transaction 1 creates a contract at address 8 (pre-funded) and sends it 5: every denomination's
+   supply is unchanged and 8 keeps its 7.  Transaction 2 makes 9 self-destruct towards 8: the 40 move, the 1000 and the
+   50 are destroyed with the account and the supplies of denominations 1 and 2 fall by exactly 1000 and 50.  A Cosmos
+   transaction then sends 3 of denomination 1 from 8 to 7, and an unaffordable send changes nothing. *)
+Example C04_example_denoms :
+  let c := mkSt (fun a => if a =? 7 then 10^18 else if a =? 9 then 40 else 0) (fun _ => 0) (fun a => a =? 7) (fun _ => false)
+                (5 * 10^18) 1000 0 0 0 0 0 0 false false in
+  let L := mkLedger (fun d a => if (d =? 1) && (a =? 9) then 1000 else if (d =? 2) && (a =? 9) then 50
+                                else if (d =? 1) && (a =? 8) then 7 else 0)
+                    (fun d => if d =? 1 then 5000 else if d =? 2 then 600 else 0) in
+  let s := mkDst c L in
+  let t1 := mkTx 7 (Some 7) true false 2000 0 0 600000 0 5 true 53000 in
+  let o1 := mkOut 90000 false 0 [(7, -5); (8, 5)] 0 false in
+  let t2 := mkTx 7 (Some 7) true false 2000 0 0 600000 1 0 false 21000 in
+  let o2 := mkOut 60000 false 0 [(9, -40); (8, 40)] 0 false in
+  let s1 := fst (ddeliver s t1 o1 (mkDx [8] [])) in
+  let s2 := fst (ddeliver s1 t2 o2 (mkDx [] [9])) in
+  let s3 := fst (dstep s2 (DCosmos 70000 8 0 true true [mkSend 1 8 7 3])) in
+  let s4 := fst (dstep s3 (DCosmos 70000 8 0 true true [mkSend 1 8 7 1; mkSend 2 8 7 1])) in
+  r_out (snd (ddeliver s t1 o1 (mkDx [8] []))) = Executed false /\
+  supply_d s1 0 = supply_d s 0 /\ supply_d s1 1 = 5000 /\ supply_d s1 2 = 600 /\ bal_d s1 1 8 = 7 /\ bal_d s1 0 8 = 5 /\
+  supply_d s2 0 = supply_d s 0 /\ supply_d s2 1 = 4000 /\ supply_d s2 2 = 550 /\
+  bal_d s2 1 9 = 0 /\ bal_d s2 2 9 = 0 /\ bal_d s2 0 8 = 45 /\ bal_d s2 1 8 = 7 /\
+  destroyed_d s1 t2 o2 (mkDx [] [9]) 1 = 1000 /\
+  bal_d s3 1 8 = 4 /\ bal_d s3 1 7 = 3 /\ supply_d s3 1 = 4000 /\
+  bal_d s4 1 8 = 4 /\ bal_d s4 2 7 = 0 /\ cosmos_consistent (d_other s3) true [mkSend 1 8 7 1; mkSend 2 8 7 1] = false.
+Proof. vm_compute. repeat split; reflexivity. Qed.
+
+(* the hypothesis of C04_denom_supply_never_grows is met by that ledger *)
+Example C04_example_denoms_nonneg :
+  nonneg (mkLedger (fun d a => if (d =? 1) && (a =? 9) then 1000 else if (d =? 2) && (a =? 9) then 50
+                               else if (d =? 1) && (a =? 8) then 7 else 0)
+                   (fun d => if d =? 1 then 5000 else if d =? 2 then 600 else 0)).
+Proof.
+  intros d a. cbn [l_bal].
+  destruct ((d =? 1) && (a =? 9)); [discriminate|]. destruct ((d =? 2) && (a =? 9)); [discriminate|].
+  destruct ((d =? 1) && (a =? 8)); discriminate.
+Qed.
